@@ -22,6 +22,10 @@ func init() {
 		if err := json.Unmarshal(raw, &cs); err != nil {
 			return err
 		}
+		if cs.Kind == c02SubKind {
+			c02SubCheck(ctx, 0, cs)
+			return nil
+		}
 		c02Check(ctx, 0, cs)
 		return nil
 	})
@@ -89,7 +93,10 @@ func walkSteps(steps []*planner.QueryPlanStep, f func(*planner.QueryPlanStep)) {
 //
 //	(1) each sub-request parses and validates against ITS service's schema (gqlparser: unknown
 //	    type/field/argument, undeclared variable, variable type vs position are validation rules);
-//	(2) every client variable a sub-request uses is forwarded (VariablesList ⊇ used variables);
+//	(2) every client variable a sub-request uses is forwarded (VariablesList ⊇ used variables), and
+//	    every sub-request actually SENT carries, for each client variable it declares, the value
+//	    the client sent (an explicit null is a value) or — no value sent — the default the client
+//	    declared (as a value, or as the same default in the sub-request's own declaration);
 //	(3) every client-selected field is selected by some sub-request sent to a service that declares it;
 //	(4) sub-requests add only id/__typename (and the node wrapper), registered for removal unless client-selected.
 func c02Check(ctx *Ctx, idx int, cs coreCase) {
@@ -164,20 +171,6 @@ func c02Check(ctx *Ctx, idx int, cs coreCase) {
 				return
 			}
 		}
-		// (2b) a client-declared default must travel: either in the sub-request's own declaration or as a value
-		for _, vd := range sop.VariableDefinitions {
-			cvd := op.VariableDefinitions.ForName(vd.Variable)
-			if cvd == nil || cvd.DefaultValue == nil {
-				continue
-			}
-			if _, provided := cs.Vars[vd.Variable]; provided {
-				continue
-			}
-			if vd.DefaultValue == nil {
-				fail, failImpl = "client-declared default of $"+vd.Variable+" is neither in the sub-request's declaration nor forwarded as a value", s.QueryString
-				return
-			}
-		}
 		sroot := map[ast.Operation]string{ast.Query: "Query", ast.Mutation: "Mutation", ast.Subscription: "Subscription"}[sop.Operation]
 		sf := map[clientField]bool{}
 		stepFields(sroot, sop.SelectionSet, sf)
@@ -227,12 +220,36 @@ func c02Check(ctx *Ctx, idx int, cs coreCase) {
 				continue
 			}
 			for _, vd := range doc.Operations[0].VariableDefinitions {
-				want, provided := cs.Vars[vd.Variable]
-				if !provided || op.VariableDefinitions.ForName(vd.Variable) == nil {
+				cvd := op.VariableDefinitions.ForName(vd.Variable)
+				if cvd == nil {
 					continue
 				}
 				if vd.Variable == "id" && strings.Contains(c.Query, "node(id: $id)") {
 					continue // the executor's own $id
+				}
+				want, provided := cs.Vars[vd.Variable]
+				if !provided {
+					// (2b) no value sent: a default the client declared must travel, as a value or as
+					// the same default in the sub-request's own declaration
+					if cvd.DefaultValue == nil {
+						continue
+					}
+					dflt, derr := cvd.DefaultValue.Value(nil)
+					if derr != nil {
+						continue
+					}
+					if got, sent := c.Variables[vd.Variable]; sent {
+						if hx.Canon(toGeneric(got)) != hx.Canon(toGeneric(dflt)) {
+							ctx.Rep.Fail(hx.Failure{Kind: "property-fails", Class: c02Class(cs, "client-declared default"), Detail: fmt.Sprintf("client-declared default %s of $%s: the sub-request was sent with another value (sent: %v)", cvd.DefaultValue.String(), vd.Variable, hx.Canon(c.Variables)), Case: full, Impl: c.Query, Index: idx})
+							return
+						}
+						continue
+					}
+					if vd.DefaultValue == nil || vd.DefaultValue.String() != cvd.DefaultValue.String() {
+						ctx.Rep.Fail(hx.Failure{Kind: "property-fails", Class: c02Class(cs, "client-declared default"), Detail: fmt.Sprintf("client-declared default %s of $%s is neither in the sub-request's declaration nor forwarded as a value (sent: %v)", cvd.DefaultValue.String(), vd.Variable, hx.Canon(c.Variables)), Case: full, Impl: c.Query, Index: idx})
+						return
+					}
+					continue
 				}
 				got, sent := c.Variables[vd.Variable]
 				if !sent || hx.Canon(got) != hx.Canon(want) {
@@ -259,6 +276,9 @@ func c02Check(ctx *Ctx, idx int, cs coreCase) {
 			return
 		}
 		ctx.Rep.Fail(hx.Failure{Kind: "model-mismatch", Detail: fmt.Sprintf("model planner fault %v, real planner planned", mplan["msg"]), Case: full, Model: mplan, Index: idx})
+		return
+	}
+	if !modelsAgree(ctx, mplan, full, idx) {
 		return
 	}
 	var realSteps, modelSteps []interface{}
@@ -288,10 +308,6 @@ func hasFeature(cs coreCase, f string) bool {
 // c02Class: known-finding classes = input class ∧ failure mode
 func c02Class(cs coreCase, fail string) string {
 	switch {
-	case hasFeature(cs, "var-default") && strings.HasPrefix(fail, "client-declared default"):
-		return "var-default-dropped"
-	case hasFeature(cs, "directive-variable") && strings.Contains(fail, "is not defined"):
-		return "directive-variable-undeclared"
 	case strings.Contains(cs.Query, "$id:") && (strings.Contains(fail, "Variable \"$id\"") || strings.Contains(fail, "declares $id")):
 		return "variable-named-id"
 	}
@@ -309,6 +325,10 @@ func runC02(ctx *Ctx) error {
 	for i, cs := range loadCorpus("C02") {
 		c02Check(ctx, i, cs)
 	}
+	// the other place where operations are selected: the `start` arm of the websocket handler
+	for i, cs := range c02SubCases() {
+		c02SubCheck(ctx, 50+i, cs)
+	}
 	for k := 0; k < cases; k++ {
 		r := ctx.Rand.Fork()
 		kind := "query"
@@ -322,8 +342,8 @@ func runC02(ctx *Ctx) error {
 		}
 		c02Check(ctx, 100+k, cs)
 	}
-	// wild stream: client-declared variable defaults and @skip/@include (known gaps are classified;
-	// anything else is a violation)
+	// client-declared variable defaults and @skip/@include, by literal and by variable: no excuse,
+	// every failure is a violation
 	for k := 0; k < cases/6; k++ {
 		r := ctx.Rand.Fork()
 		seed := r.U64() % 1000000
